@@ -63,14 +63,15 @@ Theorem C13_accept_DT_partial : forall s, accepts (impl_DT s) = spec_DT s || dt_
 Proof. exact accept_DT_exact. Qed.
 Print Assumptions C13_accept_DT_partial.
 
+(* every accepted HL7 date, years 0001-9999: the year is printed with four digits *)
 Theorem C13_roundtrip_DT : forall s e,
-  impl_DT s = Ok e -> spec_DT s = true -> year_ge_1000 s = true -> e = s.
+  impl_DT s = Ok e -> spec_DT s = true -> e = s.
 Proof. exact roundtrip_DT. Qed.
 Print Assumptions C13_roundtrip_DT.
 
 (* the defect family re-encodes with a zero-padded day *)
 Theorem C13_DT_defect_reencodes : forall s e,
-  impl_DT s = Ok e -> dt_space_day s = true -> year_ge_1000 s = true -> e = fix_space_day s.
+  impl_DT s = Ok e -> dt_space_day s = true -> e = fix_space_day s.
 Proof. exact space_day_reencodes. Qed.
 Print Assumptions C13_DT_defect_reencodes.
 
@@ -136,8 +137,9 @@ Theorem C13_accept_DTM_partial : forall s,
 Proof. exact accept_DTM_exact. Qed.
 Print Assumptions C13_accept_DTM_partial.
 
+(* every accepted HL7 date-time, years 0001-9999 *)
 Theorem C13_roundtrip_DTM : forall s e,
-  impl_DTM s = Ok e -> spec_DTM s = true -> year_ge_1000 s = true -> e = s.
+  impl_DTM s = Ok e -> spec_DTM s = true -> e = s.
 Proof. exact roundtrip_DTM. Qed.
 Print Assumptions C13_roundtrip_DTM.
 
@@ -372,6 +374,15 @@ Example C13_ex_DT : impl_DT ("20240229" : bs) = Ok (unbs "20240229") /\ spec_DT 
 Proof. vm_compute. auto. Qed.
 Example C13_ex_DT_defect : impl_DT ("202011 1" : bs) = Ok (unbs "20201101") /\ dt_space_day ("202011 1" : bs) = true.
 Proof. vm_compute. auto. Qed.
+(* years below 1000 keep their zero padding; year 0000 is not a date *)
+Example C13_ex_year_padding :
+  impl_DT ("09990101" : bs) = Ok (unbs "09990101") /\ spec_DT ("09990101" : bs) = true /\
+  impl_DT ("0001" : bs) = Ok (unbs "0001") /\ spec_DT ("0001" : bs) = true /\
+  impl_DTM ("0999" : bs) = Ok (unbs "0999") /\ spec_DTM ("0999" : bs) = true /\
+  impl_DTM ("00991231235959.1234+0100" : bs) = Ok (unbs "00991231235959.1234+0100") /\
+  spec_DTM ("00991231235959.1234+0100" : bs) = true /\
+  impl_DT ("0000" : bs) = Err PyValueError /\ spec_DT ("0000" : bs) = false.
+Proof. vm_compute. repeat split; reflexivity. Qed.
 Example C13_ex_TM : impl_TM ("235959.1234-1200" : bs) = Ok (unbs "235959.1234-1200") /\
                     spec_TM ("235959.1234-1200" : bs) = true /\ spec_TM ("12+1500" : bs) = false /\
                     impl_TM ("12+1500" : bs) = Err PyValueError.
